@@ -969,6 +969,10 @@ func (c PrepareCallInstr) execute(env *Zlisp) error {
 				if g.varargs {
 					return env.wrangleOptargs(g.nargs, nargs)
 				}
+				if nargs != g.nargs {
+					return fmt.Errorf("%s expected %d arguments, got %d",
+						g.name, g.nargs, nargs)
+				}
 			}
 			return nil
 		}
@@ -981,6 +985,13 @@ func (c PrepareCallInstr) execute(env *Zlisp) error {
 			}
 			if f.varargs {
 				return env.wrangleOptargs(f.nargs, nargs)
+			}
+			// the jump that follows goes straight to the prologue, which
+			// pops one operand per parameter: check the count here, as
+			// CallFunction does for a call.
+			if nargs != f.nargs {
+				return fmt.Errorf("%s expected %d arguments, got %d",
+					f.name, f.nargs, nargs)
 			}
 		}
 	}
